@@ -1190,12 +1190,13 @@ package sarama
 //@   ensures[internal_state_kept] msg.retries == old(msg.retries) && msg.flags == old(msg.flags) && msg.disp == old(msg.disp)
 //@   modifies msg.intercepted, msg.Topic, msg.Key, msg.Value, msg.Headers, msg.Metadata, msg.Offset, msg.Partition, msg.Timestamp
 
-//@ func (p *asyncProducer) dispatcher() props C01 C16 C18
+//@ func (p *asyncProducer) dispatcher() props C01 C16 C18 C04
 //@   callsite safelyApplyInterceptor: requires[fresh_only @C18] msg.retries == 0 && msg.flags == 0
 //@   callsite Done: modifies msg.disp
 //@   callsite Done: effect msg.disp == old(msg.disp) + 1
 //@   callsite send.handler: modifies msg.disp
 //@   callsite send.handler: effect msg.disp == old(msg.disp) + 1
+//@   callsite send.handler: requires[headers_only_in_the_record_format @C04] !isnil(msg.Headers) ==> verAtLeast(p.conf.Version, V0_11_0_0)
 //@   callsite send.handler: requires[size_checked @C16] bsz(msg, ite(verAtLeast(p.conf.Version, V0_11_0_0), 2, 1)) <= p.conf.Producer.MaxMessageBytes
 //@   loop 0: iter_ensures[one_outcome @C01] msg != nil && !(it(shuttingDown) && it(msg.retries) == 0 && it(msg.flags)&shutdown == 0) ==> msg.disp == it(msg.disp) + 1
 //@   loop 0: iter_ensures[rejected_at_shutdown @C01] msg != nil && it(shuttingDown) && it(msg.retries) == 0 && it(msg.flags)&shutdown == 0 ==> msg.disp == it(msg.disp) && wgcount(p.inFlight) == it(wgcount(p.inFlight)) && msg.errEvents == it(msg.errEvents) + ite(p.conf.Producer.Return.Errors, 1, 0)
@@ -2374,8 +2375,13 @@ package sarama
 //@   modifies pp.leader, pp.brokerProducer, $wg
 //@ func (pp *partitionProducer) newHighWatermark(hwm) trusted
 //@   modifies pp.highWatermark, pp.brokerProducer, $wg, partitionProducer.retryState
-//@ func (pp *partitionProducer) flushRetryBuffers() trusted
-//@   modifies pp.highWatermark, pp.brokerProducer, pp.leader, $wg, partitionProducer.retryState, ProducerMessage.disp, ProducerMessage.errEvents, ProducerMessage.succEvents, ProducerMessage.flags, ProducerMessage.retries, ProducerMessage.sequenceNumber, ProducerMessage.producerEpoch, ProducerMessage.hasSequence
+// (C01) every retry level that has been flushed - its messages handed to the broker worker, or failed because no
+// leader could be found - is emptied before the next level is looked at, so no message of it can be sent (or failed)
+// a second time by a later flush
+//@ func (pp *partitionProducer) flushRetryBuffers() props C01
+//@   loop 0: iter_ensures[flushed_level_is_emptied] isnil(pp.retryState[pp.highWatermark].buf)
+//@   nosafety
+//@   modifies pp.highWatermark, pp.brokerProducer, pp.leader, $wg, partitionProducer.retryState, ProducerMessage.disp, ProducerMessage.errEvents, ProducerMessage.succEvents, ProducerMessage.flags, ProducerMessage.retries, ProducerMessage.sequenceNumber, ProducerMessage.producerEpoch, ProducerMessage.hasSequence, transactionManager.producerEpoch, map:pp.parent.txnmgr.sequenceNumbers
 //@ func (pp *partitionProducer) backoff(retries) trusted
 //@   modifies nothing
 //@ func (p *asyncProducer) unrefBrokerProducer(broker, bp) trusted
